@@ -374,3 +374,47 @@ def bnd_decode(tier, seed):
             "scope": f"{len(items)} valid items: every leaf type x k in 1..3, random bit patterns, FLT_MAX/DBL_MAX/subnormals, non-zero booleans, nested lists",
             "rule": "distinct = (type, element count, number of length bytes); each is decoded into a fresh and into a re-used ANYVALUE",
             "samples": [{"data": d[:12].hex(), "type": t[0]} for t, d in items[:3]]}
+
+
+@bounded("C01", "encode-follows-the-current-value")
+def bnd_encode_after_mutation(tier, seed):
+    """Histories on ONE object: encode, change the value through the element objects the container hands out (set, item
+    assignment, append, attribute assignment on a record), encode again - the second encoding must be the E5 bytes of the value
+    held NOW (a container that remembers its bytes across such changes breaks 'every value is encoded to exactly ...')."""
+    rnd = random.Random(seed + 101)
+    fails = Fail()
+    n_eval = 0
+
+    def expect(obj, tree, what, w):
+        nonlocal n_eval
+        n_eval += 1
+        got = obj.encode()
+        want = R.encode(tree)
+        if got != want:
+            fails.add("encode-after-change-through-an-element", dict(w, change=what, got=got[:24].hex(), want=want[:24].hex()),
+                      "after the value was changed through an element object, encode() does not give the bytes of the current value")
+
+    for n in ([0, 1, 2, 3, 255, 256] if tier == "quick" else [0, 1, 2, 3, 5, 254, 255, 256, 257, 1000]):
+        vals = [rnd.randrange(0, 2 ** 32) for _ in range(max(n, 3))]
+        a = V.Array(V.U4, list(vals))
+        w = {"container": f"Array(U4) of {len(vals)}"}
+        expect(a, ("L", [("U4", [v]) for v in vals]), "none (first encoding)", w)
+        a[1].set(0xFFFFFFFF)
+        vals[1] = 0xFFFFFFFF
+        expect(a, ("L", [("U4", [v]) for v in vals]), "a[1].set(0xFFFFFFFF)", w)
+        a[2][0] = 7
+        vals[2] = 7
+        expect(a, ("L", [("U4", [v]) for v in vals]), "a[2][0] = 7", w)
+        a.append(9)
+        vals.append(9)
+        expect(a, ("L", [("U4", [v]) for v in vals]), "a.append(9)", w)
+    # a decoded Dynamic holding a list
+    d = ANYVALUE()
+    d.decode(R.encode(("L", [("U4", [1]), ("A", "ab")])))
+    w3 = {"container": "ANYVALUE decoded from L[U4 1, A 'ab']"}
+    expect(d, ("L", [("U4", [1]), ("A", "ab")]), "none (first encoding)", w3)
+    d[0].set(V.U4(8))
+    expect(d, ("L", [("U4", [8]), ("A", "ab")]), "d[0].set(U4(8))", w3)
+    return {"evaluations": n_eval, "distinct": n_eval, "failures": list(fails),
+            "scope": "Array(U4) of 3..1000 elements (around the 255/256 header boundary) and a decoded ANYVALUE list: encode, change through element objects, encode again",
+            "rule": "distinct = (container, change)", "samples": [{"container": "Array(U4) of 3", "change": "a[1].set(0xFFFFFFFF)"}]}
